@@ -1814,6 +1814,16 @@ func (db *DB) verifyWithExecutor(ctx context.Context, exec *syncExecutor) (info 
 		info.offset = WALHeaderSize
 		info.salt1, info.salt2 = salt1, salt2
 
+		// Without in-memory sync state (first verify after start or reopen)
+		// the WAL was restarted while the read lock was not held. Frames
+		// appended to the old generation past our position, or whole
+		// generations in between, may have been checkpointed away unseen and
+		// cannot be told apart from the surviving frames, so start over.
+		if exec.state.lastSyncedWALOffset == 0 {
+			info.reason = "wal restarted while not replicating, snapshotting"
+			return info, nil
+		}
+
 		if detected, err := db.detectFullCheckpoint(ctx, [][2]uint32{{salt1, salt2}, {dec.Header().WALSalt1, dec.Header().WALSalt2}}); err != nil {
 			return info, fmt.Errorf("detect full checkpoint: %w", err)
 		} else if detected {
